@@ -145,7 +145,7 @@ m = {
  "checks": checks,
  "not_applicable": [{"property_id": p["id"], "reason": "check not built yet (framework under construction; see DESIGN.md section 10)"}
                     for p in props if p["id"] not in CLAIMED],
- "notes": "fix: commits in /repo (see known_findings.txt): fb5c17a de31ff3 76d1b2d fc32a01 d76eda8 3d49b84 1f1eb9b 6287df8 3278173 81868e9 47aa33b d3d6b7b",
+ "notes": "fix: commits in /repo (see known_findings.txt): fb5c17a de31ff3 76d1b2d fc32a01 d76eda8 3d49b84 1f1eb9b 6287df8 3278173 81868e9 47aa33b d3d6b7b 1c7ee20",
 }
 json.dump(m, open(os.path.join(VERIF, "MANIFEST.json"), "w"), indent=1)
 print("claimed:", sorted(CLAIMED))
